@@ -187,6 +187,47 @@ def run(tier, seed):
             except Exception as exc:   # noqa
                 rep.violation("spiral(%d).normal_form raised %s" % (n, type(exc).__name__),
                               {"replay": "test_monoidal.spiral(%d).normal_form(left=%s)" % (n, left)})
+    # subclasses: the monoidal normal form requested explicitly on a rigid diagram (through the
+    # class's own normal_form, which defaults to snake removal) is the monoidal one: interchanges
+    # only, cups and caps stay.  Oracle-only (the rigid default is C07's business).
+    rcls = ci.Cls("rigid")
+    rg = G.G(random.Random(seed + 66), rigid=True)
+    snake_corpus = []
+    a, b = [1, 0], [2, 0]
+    for x in (a, b, [1, 1], [2, -1]):
+        xr = [x[0], x[1] + 1]
+        f = [G.KBOX, 70, [x], [x], 0, []]
+        cap, cup = [G.KCAP, -3, [], [xr, x], 0, []], [G.KCUP, -2, [x, xr], [], 0, []]
+        snake_corpus.append([G.MK, [x], [x], [cap, f, cup], [1, 0, 0]])
+        snake_corpus.append([G.MK, [x], [x], [f, cap, cup], [0, 1, 0]])
+    n_sub = 150 if tier == "quick" else 2000
+    for k in range(n_sub):
+        p = snake_corpus[k] if k < len(snake_corpus) else rg.diagram(n_boxes=rg.rng.randint(2, 6))[0]
+        left = bool(rg.rng.randint(0, 1))
+        rep.case(["rigid-explicit-normalizer", p, left], nontrivial=True)
+        rep.count("stream:rigid-explicit-normalizer")
+        try:
+            d = common.with_timeout(10.0, ci.interp, rcls, p)
+        except Exception:   # noqa: not a diagram
+            continue
+
+        def outcome(fn):
+            try:
+                return [0, ci.canon_diagram(common.with_timeout(10.0, fn))[:4]]
+            except Exception as exc:   # noqa
+                return [1, type(exc).__name__]
+        want = outcome(lambda: monoidal.Diagram.normal_form(
+            d, normalizer=ci.bounded(monoidal.Diagram.normalize), left=left))
+        got = outcome(lambda: d.normal_form(
+            normalizer=ci.bounded(monoidal.Diagram.normalize), left=left))
+        if got != want:
+            rep.count("oracle:explicit-normalizer:FAIL")
+            rep.violation("rigid diagram: d.normal_form(normalizer=monoidal.Diagram.normalize) is not the "
+                          "monoidal normal form (reachable by interchanges alone)",
+                          {"class": "rigid", "program": p, "left": left, "got": got, "want": want,
+                           "replay": base.snippet("rigid", [G.NORMALFORM, p, int(left)])})
+        else:
+            rep.count("oracle:explicit-normalizer:pass")
     base.settle(rep, "C06", proof_ok, "C06")
     return rep.finish(
         rule="class monoidal: every diagram over a small signature with <= 3 (4) boxes and random grown "
